@@ -20,7 +20,7 @@ func init() { checks["C16"] = c16 }
 func c16(args []string) {
 	c := chk.New("C16", "exploration", args)
 	c.Build(false)
-	c.Rule("generated graphs (<= 9 processes, file and parameter edges, ParamSource / ParamCombinator processes, independent branches): (1) every single in-port or parameter in-port left unconnected in turn -> Run must refuse before any command (exit != 0, empty command trace), while unconsumed out-ports are drained automatically (base run succeeds); (2) RunTo on every target set of size <= 2 plus random larger ones, addressed by name, by regex and by process value -> the set of processes with executed commands equals the reference's upstream closure over file and parameter connections, every task of it exactly once, files equal the closure's reference, no command of any other process; bundled components: the in-ports of MapToTags, FileSplitter and the dependency port of FileGlobberDependent left unconnected must be refused too, and CommandToParams (whose command writes a marker file) must not run its command when it is outside the closure or the workflow is refused. distinct_nontrivial = distinct (graph shape, omitted port) refusals in graphs where some other process could have executed + distinct (graph shape, target set, addressing mode) with a proper closure (neither empty nor everything)")
+	c.Rule("generated graphs (<= 9 processes, file and parameter edges, ParamSource / ParamCombinator processes, independent branches): (1) every single in-port or parameter in-port left unconnected in turn -> Run must refuse before any command (exit != 0, empty command trace), while unconsumed out-ports are drained automatically (base run succeeds); (2) RunTo on every target set of size <= 2 plus random larger ones, addressed by name, by regex and by process value -> the set of processes with executed commands equals the reference's upstream closure over file and parameter connections, every task of it exactly once, files equal the closure's reference, no command of any other process; bundled components: the in-ports of MapToTags, FileSplitter, Concatenator, StreamToSubStream and the dependency port of FileGlobberDependent left unconnected must be refused too, and CommandToParams (whose command writes a marker file) must not run its command when it is outside the closure or the workflow is refused. distinct_nontrivial = distinct (graph shape, omitted port) refusals in graphs where some other process could have executed + distinct (graph shape, target set, addressing mode) with a proper closure (neither empty nor everything)")
 	c.Assume("unconnected ports in processes outside a RunTo closure are not judged (the property states the wiring check for Run)")
 	rng := c.Rand("c16")
 	type job struct {
@@ -159,11 +159,15 @@ func c16(args []string) {
 				&spec.Proc{Name: "G", Kind: spec.KCmd, Cmd: spec.BuildCmd("G", in, o1, nil, nil, nil)},
 				&spec.Proc{Name: "SP", Kind: spec.KSplitter, Lines: 2},
 				&spec.Proc{Name: "W", Kind: spec.KCmd, Cmd: spec.BuildCmd("W", in, o1, nil, nil, nil)},
+				&spec.Proc{Name: "CC", Kind: spec.KConcat, OutPath: "cc/all.txt"},
+				&spec.Proc{Name: "SS", Kind: spec.KSubStream},
+				&spec.Proc{Name: "JN", Kind: spec.KCmd, Cmd: spec.BuildCmd("JN", []spec.PortDecl{{Name: "in", Join: "space"}}, o1, nil, nil, nil), Outs: []*spec.Out{{Port: "out", Pattern: "joined.jn.out"}}},
 				&spec.Proc{Name: "CP", Kind: spec.KCmdParams, Shell: "echo ran >> ../ctp_marker.log; printf 'p1\\np2\\n'", Values: []string{"p1", "p2"}},
 				&spec.Proc{Name: "P", Kind: spec.KCmd, Cmd: spec.BuildCmd("P", nil, o1, []string{"k"}, nil, nil), Outs: []*spec.Out{{Port: "out", Pattern: "P_{p:k}.out"}}})
 			s.Conns = append(s.Conns, &spec.Conn{From: "src.out", To: "A.in"}, &spec.Conn{From: "A.out", To: "T.in"}, &spec.Conn{From: "T.out", To: "B.in"},
 				&spec.Conn{From: "A.out", To: "GL.in_dep"}, &spec.Conn{From: "GL.out", To: "G.in"},
 				&spec.Conn{From: "src.out", To: "SP.file"}, &spec.Conn{From: "SP.split_file", To: "W.in"},
+				&spec.Conn{From: "W.out", To: "CC.in"}, &spec.Conn{From: "B.out", To: "SS.in"}, &spec.Conn{From: "SS.substream", To: "JN.in"},
 				&spec.Conn{From: "CP.param", To: "P.k", Param: true})
 			return s
 		}
@@ -173,7 +177,7 @@ func c16(args []string) {
 			c.Broken("reference cannot evaluate the component wiring graph: " + expb.Err)
 		}
 		jobs = append(jobs, &job{s: base, exp: expb, cfg: Cfg{Buf: 3, Procs: 2}, kind: "base", what: "components, all connected"})
-		for _, cut := range []string{"GL.in_dep", "T.in", "SP.file"} {
+		for _, cut := range []string{"GL.in_dep", "T.in", "SP.file", "CC.in", "SS.in"} {
 			s2 := mkc()
 			var conns []*spec.Conn
 			for _, cn := range s2.Conns {
@@ -184,7 +188,7 @@ func c16(args []string) {
 			s2.Conns = conns
 			jobs = append(jobs, &job{s: s2, exp: expb, cfg: Cfg{Buf: 3, Procs: 2, SoftSec: 8}, kind: "unconnected", what: cut + " (in-port of a bundled component)", base: base})
 		}
-		for k, targets := range [][]string{{"B"}, {"G"}, {"W"}, {"B", "W"}} {
+		for k, targets := range [][]string{{"B"}, {"G"}, {"W"}, {"B", "W"}, {"JN"}, {"A", "W"}} {
 			s2 := mkc()
 			s2.Run = spec.Run{Mode: []string{"runto", "runtoprocs"}[k%2], Targets: targets}
 			exp2 := evalRef(s2, nil)
